@@ -367,28 +367,40 @@ func (p *Parser) parseExpressionNested(precedence ast.Priority) ast.Node {
 		p.nextToken()
 		return p.parseLambdaMulti(leftExp)
 	}
-	for !p.peekTokenIs(token.SEMICOLON) && precedence < p.peekPrecedence() {
+	// Each chained operator (a + b + c ..., a.b.c ..., f()() ...) makes the tree one level deeper on its left spine: the
+	// printer and the evaluator recurse on it, so a chain counts towards the nesting limit like parentheses do.
+	start := p.depth
+	for !p.tooDeep && !p.peekTokenIs(token.SEMICOLON) && precedence < p.peekPrecedence() {
 		t := p.peekToken.Type()
 		infix := p.infixParseFns[t]
 		if infix == nil {
-			return leftExp
+			break
 		}
 		// Avoid that 3\n(4) tries to call 3 as a function with 4 param.
 		// force calls() to not have whitespace between the function and the (.
 		if t == token.LPAREN && p.l.HadWhitespace() {
 			log.LogVf("parseExpression: call expression with whitespace")
-			return leftExp
+			break
 		}
 		// same for a [n] that's the [n] literal array.
 		if t == token.LBRACKET && p.l.HadWhitespace() {
 			log.LogVf("parseExpression: index expression with whitespace")
-			return leftExp
+			break
 		}
+		if p.depth >= MaxNesting {
+			_, _, lineNum := p.l.CurrentLine()
+			p.errors = append(p.errors, fmt.Sprintf("%d: nesting deeper than %d levels", lineNum, MaxNesting))
+			p.tooDeep = true
+			leftExp = nil
+			break
+		}
+		p.depth++
 
 		p.nextToken()
 
 		leftExp = infix(leftExp)
 	}
+	p.depth = start
 	return leftExp
 }
 
